@@ -37,11 +37,18 @@ static const vector<Fam>& family() {
   };
   return F;
 }
+static const int WGS = 3;              // family index of WGS84 (Geocentric.tla: WGS)
+// The object the laws are run on.  Member WGS is (a copy of) the library's singleton Geocentric::WGS84(), while the
+// textbook side (Ell(family()[WGS])) uses the documented literals 6378137, 1/298.257223563: every law of member WGS
+// therefore binds the singleton - what each default `earth` argument resolves to - to the documented ellipsoid.
 static const Geocentric& geoc(int fi) {
   static vector<unique_ptr<Geocentric>> G;
-  if (G.empty()) for (auto& m : family()) G.emplace_back(new Geocentric(m.a, m.f));
+  if (G.empty()) for (size_t i = 0; i < family().size(); ++i)
+    G.emplace_back(int(i) == WGS ? new Geocentric(Geocentric::WGS84()) : new Geocentric(family()[i].a, family()[i].f));
   return *G[fi];
 }
+// a freshly built object from the family's literals (never the singleton)
+static Geocentric fresh_geoc(int fi) { return Geocentric(family()[fi].a, family()[fi].f); }
 static const Ellipsoid* ellip(int fi) {
   static vector<unique_ptr<Ellipsoid>> E;
   if (E.empty()) for (auto& m : family()) { try { E.emplace_back(new Ellipsoid(m.a, m.f)); } catch (...) { E.emplace_back(nullptr); } }
@@ -142,6 +149,35 @@ static long long ppm(LD v) { return vt::q1(v, 1e-6L); }
 static bool same(double a, double b) { return vt::bits(a) == vt::bits(b) || (std::isnan(a) && std::isnan(b)); }
 static bool fin3(double a, double b, double c) { return std::isfinite(a) && std::isfinite(b) && std::isfinite(c); }
 
+static bool same3(const double a[3], const double b[3]) { return same(a[0], b[0]) && same(a[1], b[1]) && same(a[2], b[2]); }
+
+// The M overloads (Geocentric.tla: MSizes / MCallOK).  `call(M, out)` executes one overload with the vector M and writes
+// its three scalar outputs to out.  For every length n the vector is pre-filled with sentinels and the outputs are preset
+// to sentinels; logged per call: [n, number of entries written, outputs written and bitwise those of the overload without
+// M (ref) - and for n = 9 the matrix bitwise the record's main matrix M9].
+static const int MSIZES[] = {0, 8, 9, 10, 18};
+template <class F> static string mfamily(F call, const double ref[3], const vector<double>* M9) {
+  string s = "[";
+  for (int n : MSIZES) {
+    vector<double> M(size_t(n), vt::sentinel(2)); double out[3] = {vt::sentinel(4), vt::sentinel(4), vt::sentinel(4)};
+    call(M, out);
+    int w = 0; for (double m : M) if (!vt::is_sentinel(m, 2)) ++w;
+    bool ok = int(M.size()) == n && same3(out, ref) && !vt::is_sentinel(out[0], 4) && !vt::is_sentinel(out[1], 4) && !vt::is_sentinel(out[2], 4);
+    if (n == 9 && M9) for (int i = 0; i < 9; ++i) ok = ok && same(M[i], (*M9)[i]);
+    if (s.size() > 1) s += ",";
+    s += "[" + to_string(n) + "," + to_string(w) + "," + (ok ? "true" : "false") + "]";
+  }
+  return s + "]";
+}
+static string mv_gf(const Geocentric& g, double lat, double lon, double h, const double ref[3], const vector<double>* M9) {
+  return mfamily([&](vector<double>& M, double* o) { g.Forward(lat, lon, h, o[0], o[1], o[2], M); }, ref, M9); }
+static string mv_gr(const Geocentric& g, double X, double Y, double Z, const double ref[3], const vector<double>* M9) {
+  return mfamily([&](vector<double>& M, double* o) { g.Reverse(X, Y, Z, o[0], o[1], o[2], M); }, ref, M9); }
+static string mv_lf(const LocalCartesian& L, double lat, double lon, double h, const double ref[3], const vector<double>* M9) {
+  return mfamily([&](vector<double>& M, double* o) { L.Forward(lat, lon, h, o[0], o[1], o[2], M); }, ref, M9); }
+static string mv_lr(const LocalCartesian& L, double x, double y, double z, const double ref[3], const vector<double>* M9) {
+  return mfamily([&](vector<double>& M, double* o) { L.Reverse(x, y, z, o[0], o[1], o[2], M); }, ref, M9); }
+
 // metres -> <<floor(metres), nanometres in [0,1e9)>>
 static vector<long long> nm(double v) {
   if (!std::isfinite(v) || fabs(v) > 2.0e9) return {2000000000LL, 0};
@@ -165,6 +201,7 @@ static void do_gf(const vector<string>& t) {
   Rec r; r.str("e", "gf").i("fi", fi).i("lat", lat).i("lon", lon).i("h", h)
     .li("X", nm(X)).li("Y", nm(Y)).li("Z", nm(Z)).li("M", mq(M)).b("mex", mexact(M))
     .b("same", same(X, X2) && same(Y, Y2) && same(Z, Z2));
+  { double ref[3] = {X2, Y2, Z2}; r.raw("mv", mv_gf(g, double(lat), double(lon), double(h), ref, &M)); }
   r.emit();
 }
 static void rev_fields(Rec& r, double lat, double lon, double h, const vector<double>& M) {
@@ -185,30 +222,24 @@ static void do_gr(const vector<string>& t) {
   Rec r; r.str("e", "gr").i("fi", fi).i("X", X).i("Y", Y).i("Z", Z);
   rev_fields(r, lat, lon, h, M);
   r.i("e3", rel(e3)).i("mo", rel(mat_dev(M, T))).b("same", same(lat, lat2) && same(lon, lon2) && same(h, h2));
+  { double ref[3] = {lat2, lon2, h2}; r.raw("mv", mv_gr(g, double(X), double(Y), double(Z), ref, &M)); }
   r.emit();
 }
-static void do_lf(const vector<string>& t) {
-  int fi = atoi(t[1].c_str());
-  long long lat0 = atoll(t[2].c_str()), lon0 = atoll(t[3].c_str()), h0 = atoll(t[4].c_str());
-  long long lat = atoll(t[5].c_str()), lon = atoll(t[6].c_str()), h = atoll(t[7].c_str());
-  LocalCartesian L(double(lat0), double(lon0), double(h0), geoc(fi));
+// Forward / Reverse of a LocalCartesian object at a lattice point: the observation fields shared by the lf / lr vectors
+// (object built on the spot) and the lq queries of an object history (live object).  (fi, lat0, lon0, h0) is only used
+// for the textbook residuals of Reverse.
+static void lf_fields(Rec& r, const LocalCartesian& L, long long lat, long long lon, long long h) {
   double x, y, z, x2, y2, z2; vector<double> M(9, vt::sentinel(1));
   L.Forward(double(lat), double(lon), double(h), x, y, z, M);
   L.Forward(double(lat), double(lon), double(h), x2, y2, z2);
-  Rec r; r.str("e", "lf").i("fi", fi).i("lat0", lat0).i("lon0", lon0).i("h0", h0).i("lat", lat).i("lon", lon).i("h", h)
-    .li("x", nm(x)).li("y", nm(y)).li("z", nm(z)).li("M", mq(M)).b("mex", mexact(M))
-    .b("same", same(x, x2) && same(y, y2) && same(z, z2))
-    .b("org", L.LatitudeOrigin() == double(lat0) && L.HeightOrigin() == double(h0)
-              && remainder(L.LongitudeOrigin() - double(lon0), 360.0) == 0);
-  r.emit();
+  r.li("x", nm(x)).li("y", nm(y)).li("z", nm(z)).li("M", mq(M)).b("mex", mexact(M))
+    .b("same", same(x, x2) && same(y, y2) && same(z, z2));
+  double ref[3] = {x2, y2, z2}; r.raw("mv", mv_lf(L, double(lat), double(lon), double(h), ref, &M));
 }
-static void do_lr(const vector<string>& t) {
-  int fi = atoi(t[1].c_str());
-  long long lat0 = atoll(t[2].c_str()), lon0 = atoll(t[3].c_str()), h0 = atoll(t[4].c_str());
-  long long x = atoll(t[5].c_str()), y = atoll(t[6].c_str()), z = atoll(t[7].c_str());
-  LocalCartesian L(double(lat0), double(lon0), double(h0), geoc(fi));
-  double lat, lon, h; vector<double> M(9, vt::sentinel(1));
+static void lr_fields(Rec& r, const LocalCartesian& L, int fi, long long lat0, long long lon0, long long h0, long long x, long long y, long long z) {
+  double lat, lon, h, lat2, lon2, h2; vector<double> M(9, vt::sentinel(1));
   L.Reverse(double(x), double(y), double(z), lat, lon, h, M);
+  L.Reverse(double(x), double(y), double(z), lat2, lon2, h2);
   Ell E(family()[fi]);
   LD T0[9], T[9]; enu(double(lat0), double(lon0), T0); enu(lat, lon, T);
   V3 P0 = E.fwd(double(lat0), double(lon0), double(h0));
@@ -219,10 +250,173 @@ static void do_lr(const vector<string>& t) {
     LD q = 0; for (int k = 0; k < 3; ++k) q += T0[3 * k + i] * T[3 * k + j];
     w = fmaxl(w, fabsl(q - (LD)M[3 * i + j]));
   }
-  Rec r; r.str("e", "lr").i("fi", fi).i("lat0", lat0).i("lon0", lon0).i("h0", h0).i("x", x).i("y", y).i("z", z);
   rev_fields(r, lat, lon, h, M);
-  r.i("e3", rel(e3)).i("mo", rel(w));
+  r.i("e3", rel(e3)).i("mo", rel(w)).b("same", same(lat, lat2) && same(lon, lon2) && same(h, h2));
+  double ref[3] = {lat2, lon2, h2}; r.raw("mv", mv_lr(L, double(x), double(y), double(z), ref, &M));
+}
+static void do_lf(const vector<string>& t) {
+  int fi = atoi(t[1].c_str());
+  long long lat0 = atoll(t[2].c_str()), lon0 = atoll(t[3].c_str()), h0 = atoll(t[4].c_str());
+  long long lat = atoll(t[5].c_str()), lon = atoll(t[6].c_str()), h = atoll(t[7].c_str());
+  LocalCartesian L(double(lat0), double(lon0), double(h0), geoc(fi));
+  Rec r; r.str("e", "lf").i("fi", fi).i("lat0", lat0).i("lon0", lon0).i("h0", h0).i("lat", lat).i("lon", lon).i("h", h);
+  lf_fields(r, L, lat, lon, h);
+  r.b("org", L.LatitudeOrigin() == double(lat0) && L.HeightOrigin() == double(h0)
+              && remainder(L.LongitudeOrigin() - double(lon0), 360.0) == 0);
   r.emit();
+}
+static void do_lr(const vector<string>& t) {
+  int fi = atoi(t[1].c_str());
+  long long lat0 = atoll(t[2].c_str()), lon0 = atoll(t[3].c_str()), h0 = atoll(t[4].c_str());
+  long long x = atoll(t[5].c_str()), y = atoll(t[6].c_str()), z = atoll(t[7].c_str());
+  LocalCartesian L(double(lat0), double(lon0), double(h0), geoc(fi));
+  Rec r; r.str("e", "lr").i("fi", fi).i("lat0", lat0).i("lon0", lon0).i("h0", h0).i("x", x).i("y", y).i("z", z);
+  lr_fields(r, L, fi, lat0, lon0, h0, x, y, z);
+  r.emit();
+}
+
+// one call of an M overload chosen by TLC: entry point x length of the vector (vector "mv ent n fi lat lon h")
+static void do_mv(const vector<string>& t) {
+  string ent = t[1]; int n = atoi(t[2].c_str()), fi = atoi(t[3].c_str());
+  double lat = atof(t[4].c_str()), lon = atof(t[5].c_str()), h = atof(t[6].c_str());
+  const Geocentric& g = geoc(fi); LocalCartesian L(lat, lon, h, g);
+  vector<double> M(size_t(n), vt::sentinel(2)); double o[3] = {vt::sentinel(4), vt::sentinel(4), vt::sentinel(4)}, ref[3];
+  if (ent == "GF") { g.Forward(lat, lon, h, ref[0], ref[1], ref[2]); g.Forward(lat, lon, h, o[0], o[1], o[2], M); }
+  else if (ent == "GR") { double X, Y, Z; g.Forward(lat, lon, h, X, Y, Z); g.Reverse(X, Y, Z, ref[0], ref[1], ref[2]); g.Reverse(X, Y, Z, o[0], o[1], o[2], M); }
+  else if (ent == "LF") { L.Forward(0.0, 90.0, 1000.0, ref[0], ref[1], ref[2]); L.Forward(0.0, 90.0, 1000.0, o[0], o[1], o[2], M); }
+  else { L.Reverse(3.0, -4.0, 7.0, ref[0], ref[1], ref[2]); L.Reverse(3.0, -4.0, 7.0, o[0], o[1], o[2], M); }
+  int w = 0; for (double m : M) if (!vt::is_sentinel(m, 2)) ++w;
+  bool ok = int(M.size()) == n && same3(o, ref) && !vt::is_sentinel(o[0], 4) && !vt::is_sentinel(o[1], 4) && !vt::is_sentinel(o[2], 4);
+  Rec r; r.str("e", "mv").str("ent", ent).i("n", n).i("fi", fi).i("lat", (long long)lat).i("lon", (long long)lon).i("h", (long long)h)
+    .raw("m", "[" + to_string(n) + "," + to_string(w) + "," + (ok ? "true" : "false") + "]");
+  r.emit();
+}
+
+// ------------------------------------------------------------------ objects
+// bitwise comparison of two objects on a probe set; returns the number of comparisons, clears eq on a difference
+static int probe_geoc(const Geocentric& g1, const Geocentric& g2, vt::Rng& g, bool& eq) {
+  int n = 0; double a = g2.EquatorialRadius();
+  for (int i = 0; i < 6; ++i) {
+    double lat = i == 0 ? 90.0 : i == 1 ? 0.0 : g.uni(-90, 90), lon = i == 1 ? 180.0 : g.uni(-200, 200), h = i < 2 ? 0.0 : g.uni(-0.5, 2) * a;
+    double u[3], v[3]; vector<double> M1(9, vt::sentinel(1)), M2(9, vt::sentinel(1));
+    g1.Forward(lat, lon, h, u[0], u[1], u[2], M1); g2.Forward(lat, lon, h, v[0], v[1], v[2], M2);
+    eq = eq && same3(u, v); for (int k = 0; k < 9; ++k) eq = eq && same(M1[k], M2[k]); ++n;
+    double X = u[0] * g.uni(0.5, 1.5), Y = u[1] + g.uni(-1, 1) * a, Z = i == 2 ? 0.0 : u[2];
+    if (i == 3) { X = 0; Y = 0; } if (i == 4) { X = 0; Y = 0; Z = 0; }
+    g1.Reverse(X, Y, Z, u[0], u[1], u[2], M1); g2.Reverse(X, Y, Z, v[0], v[1], v[2], M2);
+    eq = eq && same3(u, v); for (int k = 0; k < 9; ++k) eq = eq && same(M1[k], M2[k]); ++n;
+  }
+  return n;
+}
+static int probe_local(const LocalCartesian& L1, const LocalCartesian& L2, vt::Rng& g, bool& eq) {
+  int n = 0; double a = L2.EquatorialRadius();
+  for (int i = 0; i < 8; ++i) {
+    double lat = i == 0 ? L2.LatitudeOrigin() : i == 1 ? 90.0 : i == 2 ? 0.0 : g.uni(-90, 90);
+    double lon = i == 0 ? L2.LongitudeOrigin() : g.uni(-200, 200), h = i == 0 ? L2.HeightOrigin() : i < 3 ? 0.0 : g.uni(-0.5, 2) * a;
+    double u[3], v[3]; vector<double> M1(9, vt::sentinel(1)), M2(9, vt::sentinel(1));
+    L1.Forward(lat, lon, h, u[0], u[1], u[2], M1); L2.Forward(lat, lon, h, v[0], v[1], v[2], M2);
+    eq = eq && same3(u, v); for (int k = 0; k < 9; ++k) eq = eq && same(M1[k], M2[k]); ++n;
+    double x = i == 1 ? 0.0 : u[0] + g.uni(-1, 1) * 1e-3 * a, y = i == 1 ? 0.0 : u[1] * g.uni(0.5, 1.5), z = i == 1 ? 0.0 : i == 2 ? 7.0 : u[2];
+    L1.Reverse(x, y, z, u[0], u[1], u[2], M1); L2.Reverse(x, y, z, v[0], v[1], v[2], M2);
+    eq = eq && same3(u, v); for (int k = 0; k < 9; ++k) eq = eq && same(M1[k], M2[k]); ++n;
+  }
+  eq = eq && same(L1.LatitudeOrigin(), L2.LatitudeOrigin()) && same(L1.LongitudeOrigin(), L2.LongitudeOrigin())
+          && same(L1.HeightOrigin(), L2.HeightOrigin()) && same(L1.EquatorialRadius(), L2.EquatorialRadius())
+          && same(L1.Flattening(), L2.Flattening());
+  return n + 5;
+}
+// inspectors of the ellipsoid: bit patterns of what the object reports (ia, if) and of the family's literals (ea, ef);
+// for the spec's WGS84 law also a as an integer and 1/f in units of 1e-9 (limbs base 1e9)
+static void ellipsoid_fields(Rec& r, double ia, double iff, int fi) {
+  r.li("ia", vt::bits3(ia)).li("if", vt::bits3(iff));
+  if (fi >= 0) r.li("ea", vt::bits3(family()[fi].a)).li("ef", vt::bits3(family()[fi].f)); else r.li("ea", {}).li("ef", {});
+  long long hi = 0, lo = 0; if (iff != 0 && std::isfinite(iff)) vt::limbs(1 / (LD)iff, 1e-9L, hi, lo);
+  r.i("iaq", vt::q1(ia, 1)).b("iaex", ia == floor(ia)).li("irf", {hi, lo});
+}
+// a Geocentric object built in one of the documented ways (vector "go form fi")
+static void do_go(const vector<string>& t) {
+  string form = t[1]; int fi = atoi(t[2].c_str());
+  unique_ptr<Geocentric> G;
+  if (form == "ctor") G.reset(new Geocentric(family()[fi].a, family()[fi].f));
+  else if (form == "copy") { Geocentric tmp(family()[fi].a, family()[fi].f); G.reset(new Geocentric(tmp)); }
+  else if (form == "assign") { G.reset(new Geocentric(1.0, 0.5)); Geocentric tmp(family()[fi].a, family()[fi].f); *G = tmp; }
+  else if (form == "wgs84") G.reset(new Geocentric(Geocentric::WGS84()));
+  else G.reset(new Geocentric());
+  Rec r; r.str("e", "go").str("form", form).i("fi", fi).b("init", G->Init());
+  bool eq = true; int n = 0;
+  if (fi >= 0 && G->Init()) { vt::Rng g(977 + fi); Geocentric F = fresh_geoc(fi); n = probe_geoc(*G, F, g, eq);
+                              if (form == "wgs84") { n += probe_geoc(Geocentric::WGS84(), F, g, eq); } }
+  r.b("eq", eq).i("neq", n);
+  ellipsoid_fields(r, G->EquatorialRadius(), G->Flattening(), fi);
+  r.emit();
+}
+
+// A LocalCartesian object with a history.  Each row "op fi a1 a2 a3 | sfi slat0 slon0 sh0" is one operation chosen by TLC
+// together with the model state after it; the driver applies the operation to the live object, builds the fresh object
+// LocalCartesian(slat0, slon0, sh0, Geocentric(a, f) of member sfi) by the general constructor and logs whether the two
+// agree bit for bit on a probe set, plus the inspectors of the live object.  `mode` "lat": integers, "rnd": bit patterns.
+struct Live {
+  unique_ptr<LocalCartesian> L; uint64_t nops = 0;
+  void header(const char* mode) { L.reset(); Rec r; r.str("e", "Reset").str("mode", mode); r.emit(); }
+  // returns false when the operation cannot be executed (no object / unknown op): logged with eq = false
+  bool apply(const string& op, int fi, double a1, double a2, double a3) {
+    if (op == "c4") L.reset(new LocalCartesian(a1, a2, a3, geoc(fi)));
+    else if (op == "c3") L.reset(new LocalCartesian(a1, a2, a3));
+    else if (op == "c2") L.reset(new LocalCartesian(a1, a2));
+    else if (op == "c1") L.reset(new LocalCartesian(geoc(fi)));
+    else if (op == "c0") L.reset(new LocalCartesian());
+    else if (!L) return false;
+    else if (op == "r3") L->Reset(a1, a2, a3);
+    else if (op == "r2") L->Reset(a1, a2);
+    else if (op == "cp") { unique_ptr<LocalCartesian> C(new LocalCartesian(*L)); L.swap(C); }      // continue with the copy
+    else if (op == "as") { unique_ptr<LocalCartesian> C(new LocalCartesian(-33.0, 151.0, 99.0, Geocentric(1.0, 0.25))); *C = *L; L.swap(C); }
+    else return false;
+    return true;
+  }
+};
+static string b3s(double v) { auto b = vt::bits3(v); return "[" + to_string(b[0]) + "," + to_string(b[1]) + "," + to_string(b[2]) + "]"; }
+static string num(bool lat, double v) {       // lattice mode: the integer (2000000001 if not one); random mode: the bit pattern
+  if (!lat) return b3s(v);
+  return (v == floor(v) && fabs(v) < 2.0e9) ? to_string((long long)v) : string("2000000001");
+}
+static void lo_record(Live& lv, bool latmode, const string& op, int fi, double a1, double a2, double a3,
+                      int sfi, double s1, double s2, double s3) {
+  bool done = lv.apply(op, fi, a1, a2, a3); ++lv.nops;
+  Rec r; r.str("e", "lo").str("mode", latmode ? "lat" : "rnd").str("op", op).i("fi", fi)
+    .raw("a", "[" + num(latmode, a1) + "," + num(latmode, a2) + "," + num(latmode, a3) + "]")
+    .raw("st", "[" + to_string(sfi) + "," + num(latmode, s1) + "," + num(latmode, s2) + "," + num(latmode, s3) + "]");
+  bool eq = done; int n = 0;
+  if (done && sfi >= 0 && sfi < int(family().size())) {
+    LocalCartesian F(s1, s2, s3, fresh_geoc(sfi)); vt::Rng g(31 * lv.nops + 7);
+    n = probe_local(*lv.L, F, g, eq);
+  } else eq = false;
+  r.b("eq", eq).i("neq", n);
+  if (lv.L) {
+    const LocalCartesian& L = *lv.L; double il = L.LongitudeOrigin();
+    r.raw("ilat", num(latmode, L.LatitudeOrigin())).raw("ih", num(latmode, L.HeightOrigin()))
+     .i("ilonr", rel(fabsl(remainderl((LD)il - (LD)s2, 360.0L)))).b("ilonrng", fabs(il) <= 180);
+    ellipsoid_fields(r, L.EquatorialRadius(), L.Flattening(), sfi >= 0 && sfi < int(family().size()) ? sfi : -1);
+  } else { r.raw("ilat", "2000000001").raw("ih", "2000000001").i("ilonr", 2000000001).b("ilonrng", false); ellipsoid_fields(r, Math::NaN(), Math::NaN(), -1); }
+  r.emit();
+}
+static void lq_record(Live& lv, const string& op, long long a1, long long a2, long long a3, int sfi, long long s1, long long s2, long long s3) {
+  Rec r; r.str("e", "lq").str("mode", "lat").str("op", op).li("a", {a1, a2, a3}).li("st", {sfi, s1, s2, s3});
+  if (!lv.L || sfi < 0 || sfi >= int(family().size())) { r.b("eq", false); r.emit(); return; }
+  LocalCartesian F(double(s1), double(s2), double(s3), fresh_geoc(sfi));
+  bool eq = true; double u[3], v[3];
+  if (op == "fw") { lv.L->Forward(double(a1), double(a2), double(a3), u[0], u[1], u[2]); F.Forward(double(a1), double(a2), double(a3), v[0], v[1], v[2]); eq = same3(u, v); lf_fields(r, *lv.L, a1, a2, a3); }
+  else { lv.L->Reverse(double(a1), double(a2), double(a3), u[0], u[1], u[2]); F.Reverse(double(a1), double(a2), double(a3), v[0], v[1], v[2]); eq = same3(u, v);
+         lr_fields(r, *lv.L, sfi, s1, s2, s3, a1, a2, a3); }
+  r.b("eq", eq);
+  r.emit();
+}
+static Live g_live;
+static void do_o(const vector<string>& t) {       // "o op fi a1 a2 a3 sfi s1 s2 s3"
+  string op = t[1]; int fi = atoi(t[2].c_str()), sfi = atoi(t[6].c_str());
+  long long a1 = atoll(t[3].c_str()), a2 = atoll(t[4].c_str()), a3 = atoll(t[5].c_str());
+  long long s1 = atoll(t[7].c_str()), s2 = atoll(t[8].c_str()), s3 = atoll(t[9].c_str());
+  if (op == "fw" || op == "rv") lq_record(g_live, op, a1, a2, a3, sfi, s1, s2, s3);
+  else lo_record(g_live, true, op, fi, double(a1), double(a2), double(a3), sfi, double(s1), double(s2), double(s3));
 }
 
 // ------------------------------------------------------------------ law records
@@ -241,6 +435,7 @@ static void rec_fw(int fi, double lat, double lon, double h) {
     .b("fin", fin3(X, Y, Z)).i("dF", rel(norm(sub(V3{X, Y, Z}, P)) / sc))
     .i("mo", rel(mat_dev(M, T))).i("mort", rel(mat_orth(M))).i("mdet", rel(fabsl(mat_det(M) - 1)))
     .b("msame", same(X, X2) && same(Y, Y2) && same(Z, Z2) && same(X, X3) && same(Y, Y3) && same(Z, Z3) && wrong);
+  { double ref[3] = {X, Y, Z}; r.raw("mv", mv_gf(g, lat, lon, h, ref, &M)); }
   // up column = direction of increasing h (Forward is affine in h): finite difference over d = scale/4
   {
     double d = double(sc / 4), Xd, Yd, Zd; g.Forward(lat, lon, h + d, Xd, Yd, Zd);
@@ -303,6 +498,7 @@ static void rec_rv(int fi, double X, double Y, double Z, const char* reg, int k)
     .i("lm", rel((E.mindist(R, Z) - fabsl((LD)h)) / sc))
     .i("mo", rel(mat_dev(M, T))).i("mort", rel(mat_orth(M))).i("mdet", rel(fabsl(mat_det(M) - 1)))
     .b("msame", same(lat, lat2) && same(lon, lon2) && same(h, h2) && same(lat, lat3) && same(lon, lon3) && same(h, h3) && wrong);
+  { double ref[3] = {lat, lon, h}; r.raw("mv", mv_gr(g, X, Y, Z, ref, &M)); }
   r.emit();
 }
 
@@ -357,6 +553,8 @@ static void rec_lc(int fi, double lat0, double lon0, double h0, double lat, doub
     .b("msame", same(x, x2) && same(y, y2) && same(z, z2) && same(lat1, lat4) && same(lon1, lon4) && same(h1, h4))
     .b("org", same(L.LatitudeOrigin(), lat0) && same(L.HeightOrigin(), h0)
               && remainder(L.LongitudeOrigin() - lon0, 360.0) == 0);
+  { double ref[3] = {x2, y2, z2}; r.raw("mvf", mv_lf(L, lat, lon, h, ref, &M)); }
+  { double ref[3] = {lat4, lon4, h4}; r.raw("mvr", mv_lr(L, x, y, z, ref, &Mr)); }
   r.emit();
 }
 
@@ -456,6 +654,35 @@ static void do_record(uint64_t seed, long long n) {
   }
 }
 
+// seeded random object histories (random origins and ellipsoids; arguments and states logged as bit patterns).  The
+// driver keeps the state the documentation says the object is in (last origin, constructor's ellipsoid, defaults WGS84
+// and 0) only to build the fresh object it compares with; Trace_Geocentric recomputes that state itself and rejects a
+// line whose "st" differs.
+static void do_hist(uint64_t seed, long long n) {
+  vt::Rng g(seed ^ 0x5bd1e995ULL);
+  Live lv;
+  for (long long it = 0; it < n; ++it) {
+    lv.header("rnd");
+    int sfi = -1; double s1 = 0, s2 = 0, s3 = 0;
+    int len = 1 + int(g.range(0, 3));
+    for (int k = 0; k < len; ++k) {
+      static const char* C[] = {"c4", "c3", "c2", "c1", "c0"}; static const char* S[] = {"r3", "r3", "r2", "cp", "as"};
+      string op = k == 0 ? C[g.range(0, 4)] : S[g.range(0, 4)];
+      int fi = rfam(g); double a = family()[op == "c4" || op == "c1" ? fi : k == 0 ? WGS : sfi].a;
+      double a1 = rlat(g), a2 = rlon(g), a3 = g.range(0, 3) ? g.uni(-1e-3, 2e-3) * a : rh(g, a);
+      if (op == "c4") { sfi = fi; s1 = a1; s2 = a2; s3 = a3; }
+      else if (op == "c3") { sfi = WGS; s1 = a1; s2 = a2; s3 = a3; fi = -1; }
+      else if (op == "c2") { sfi = WGS; s1 = a1; s2 = a2; s3 = 0; fi = -1; a3 = 0; }
+      else if (op == "c1") { sfi = fi; s1 = s2 = s3 = 0; a1 = a2 = a3 = 0; }
+      else if (op == "c0") { sfi = WGS; s1 = s2 = s3 = 0; fi = -1; a1 = a2 = a3 = 0; }
+      else if (op == "r3") { s1 = a1; s2 = a2; s3 = a3; fi = -1; }
+      else if (op == "r2") { s1 = a1; s2 = a2; s3 = 0; fi = -1; a3 = 0; }
+      else { fi = -1; a1 = a2 = a3 = 0; }
+      lo_record(lv, false, op, fi, a1, a2, a3, sfi, s1, s2, s3);
+    }
+  }
+}
+
 int main(int argc, char** argv) {
   vt::install_terminate();
   if (argc >= 2 && string(argv[1]) == "replay") {
@@ -464,9 +691,12 @@ int main(int argc, char** argv) {
       auto t = vt::split(line); if (t.empty()) continue;
       if (t[0] == "gf") do_gf(t); else if (t[0] == "gr") do_gr(t); else if (t[0] == "lf") do_lf(t);
       else if (t[0] == "lr") do_lr(t); else if (t[0] == "box") do_box(t);
+      else if (t[0] == "mv") do_mv(t); else if (t[0] == "go") do_go(t);
+      else if (t[0] == "obj") g_live.header("lat"); else if (t[0] == "o") do_o(t);
     }
     return 0;
   }
   if (argc >= 4 && string(argv[1]) == "record") { do_record(strtoull(argv[2], 0, 10), atoll(argv[3])); return 0; }
-  fprintf(stderr, "usage: drv_geoc replay < vectors | record seed n\n"); return 2;
+  if (argc >= 4 && string(argv[1]) == "hist") { do_hist(strtoull(argv[2], 0, 10), atoll(argv[3])); return 0; }
+  fprintf(stderr, "usage: drv_geoc replay < vectors | record seed n | hist seed n\n"); return 2;
 }
